@@ -59,3 +59,39 @@ def register(claim, na):
           "All generated paths of every description must lie inside the job directory, be pairwise distinct across (object, parameter) pairs, and be "
           "identical (relative to the job directory) when an equal fresh graph is submitted again.",
           G_NOTE, "DESIGN.md 3/C17")
+
+    W_NOTE = ("The real scheduler, tokens, locks, launcher, script builder and job preparation run unmodified on a virtual asyncio loop with "
+              "greenlet actors; modelled (and trusted within their conformance checks): job processes (behaviour table of TaskRunner), POSIX record "
+              "locks, inotify delivery, process death. Bounds: deviation bound per scenario (reported), <=4 jobs, <=2 scheduler processes, <=2 tokens; "
+              "loop callbacks atomic between scheduling points.")
+    W_TECH = "stateless deviation-bounded exhaustive exploration of schedules of the real scheduler under a controlled scheduler (virtual loop + greenlet actors)"
+    claim("C04", "W", "model_checking", W_TECH,
+          "Every DAG on <=3 nodes in every topological submission order with every edge realised by each of 11 embedding kinds (rotated), diamonds on 4 "
+          "nodes and failing subsets are run under every schedule within the deviation bound from 2-3 default policies; at each launch event every "
+          "ancestor from the scenario description must already have exited with 0. Static half (Engine G): job.dependencies after a DRY_RUN submit "
+          "equals the reference upstream set for every task description within (N,k).",
+          W_NOTE, "DESIGN.md 2.2, 3/C04")
+    claim("C05", "W", "model_checking", W_TECH,
+          "Submission histories (duplicates at every position, second experiment with the success marker present, re-submission after failure), two "
+          "nested experiments and two simulated scheduler processes submitting the same job with fine-grained scheduling points; all schedules within "
+          "the bound; oracles on every execution: first output returned, one registry entry, body intervals never overlap, no body after success, no "
+          "launch when the marker existed at submission.",
+          W_NOTE, "DESIGN.md 3/C05")
+    claim("C06", "W", "model_checking", W_TECH,
+          "Token workloads, DAGs with failing subsets and submission histories under all schedules within the bound from three default policies; every "
+          "assignment to Job.state is logged (finality), final states are compared with exit codes, job.wait() values, unfinishedJobs, quiescent hangs "
+          "and the position of the experiment's exit relative to the last final state are checked on every execution.",
+          W_NOTE, "DESIGN.md 3/C06")
+    claim("C07", "W", "model_checking", W_TECH,
+          "Every DAG on <=3 nodes x every non-empty failing subset (plus failing token holders) under all schedules within the bound: no launch below a "
+          "failed ancestor, cancelled jobs end ERROR/DEPENDENCY, independent jobs end by their own exit code, FailedExperiment iff some job failed.",
+          W_NOTE, "DESIGN.md 3/C07")
+    claim("C08", "W", "model_checking", W_TECH,
+          "Seven (capacity; requests) workloads, failing holder, chain/fork under a token, two tokens, file and process tokens, two simulated processes "
+          "sharing the token directory (fine-grained points): at every launch and every token-file creation of every execution the held amount must "
+          "not exceed the capacity.",
+          W_NOTE, "DESIGN.md 3/C08")
+    claim("C09", "W", "model_checking", W_TECH,
+          "The C08 workloads: at the quiescent end of every execution no hang (a fitting waiting job was launched), no token file left, available == "
+          "total in every live process, no observer/watcher thread died. Scheduler death while tokens are held is explored by C11's kill enumeration.",
+          W_NOTE, "DESIGN.md 3/C09")
